@@ -20,7 +20,8 @@ CLAIMED = {
              "cache-key coverage, pattern/label agreement and external writers are decided as well. This covers every "
              "sequence of mutator/query calls because it constrains each mutator, not a sampled history; it decides the "
              "mechanism the property rests on, not value equality of resolved configurations."
-             " The value stored in the cache is the value returned; component names are escaped in invalidation patterns; the guard pins ignore_convert_errors as well.",
+             " The value stored in the cache is the value returned; component names are escaped in invalidation patterns; the guard pins ignore_convert_errors as well."
+         " A clear-then-refill of a stored object cannot fail between the clear and the invalidation.",
         technique="CFG-based flow-sensitive may-alias + effect analysis (write => invalidate), who-may-write, "
                   "cache-key coverage",
         design="3/C08"),
@@ -50,7 +51,8 @@ CLAIMED["C02"] = dict(
          "shutdown-propagation table. Decides the obligations without which some ordering leaves a component pending "
          "or in a rule-violating state; does not explore interleavings."
          " Every component that is stopped by finishedCheck has an observer first (the gate is exactly 'not staged in')."
-         " The first final state of a component stays: finish() assigns or schedules a final state only when none of FINISHED/FAILED/SHUTDOWN is set yet. One reproduced race (a stop within ~5 s after a restart) is listed as an observed known finding - it is not decided statically.",
+         " The first final state of a component stays: finish() assigns or schedules a final state only when none of FINISHED/FAILED/SHUTDOWN is set yet. One reproduced race (a stop within ~5 s after a restart) is listed as an observed known finding - it is not decided statically."
+         " Outside finish() the controller never replaces a final state: a transient controllerState is set only where none is set and undone only where it is still there. A second observed known finding (ordering-dependent final state of a repeating observer) is listed.",
     technique="statement CFG with handler/finally modelling: must-pass-through, per-path call counting, branch-table "
               "recognition",
     design="3/C02")
@@ -95,7 +97,8 @@ CLAIMED["C03"] = dict(
          "component is emitted by one branch, counts propagate topologically and stop at aggregating components. "
          "The variable scope a replica count is read from is a fresh copy per component (the merge helper mutates its first argument). "
          "Equality of the expanded dataflow with an independent expansion is not decided."
-         " Every reference to a replicated producer is registered for rewriting (no other condition gates the registration).",
+         " Every reference to a replicated producer is registered for rewriting (no other condition gates the registration)."
+         " The reference translation of a copy covers the whole component including its platform override; the path repeated after an aggregated reference accepts every name character (decided on the parsed pattern).",
     technique="substitution-site lint with pattern-shape analysis (SUB), format-string agreement, CFG edge-dominance",
     design="3/C03")
 CLAIMED["C05"] = dict(
@@ -107,7 +110,8 @@ CLAIMED["C05"] = dict(
          "instance list modified only inside graph.py (flow-sensitive alias analysis of its readers) and selected by the "
          "placeholder's stage and name (component-wise dependence analysis with helper inlining). Holds for every iteration count because it constrains the comparison, not sampled counts."
          " The rewritten loop binding is re-assembled from stage, producer, file and method of the original one."
-         " Every occurrence of a reference is rewritten (no count limit at the substitution sites); a skipped placeholder has consumed its instances first. Two reproduced limitations of loop bindings (replicated looped producer, loop-to-loop binding) are listed as observed known findings.",
+         " Every occurrence of a reference is rewritten (no count limit at the substitution sites); a skipped placeholder has consumed its instances first. Two reproduced limitations of loop bindings (replicated looped producer, loop-to-loop binding) are listed as observed known findings."
+         " On a restart only the placeholders of stages strictly before the starting stage are frozen.",
     technique="sibling cross-check lint over sort keys, format/parser agreement, CFG edge-dominance, SUB, "
               "reaching-definition alias analysis (who-may-write)",
     design="3/C05")
@@ -119,7 +123,8 @@ CLAIMED["C10"] = dict(
          "spelling was not found, values are inserted verbatim (callable), and inserted text is never rescanned (one pass "
          "outside the loop over the references); DataReference.resolve and resolveArguments keep no state between calls and the "
          ":output value returned is, on every path, read from the file in that call. The four str.replace sites that violated it were a genuine, reproduced defect and were repaired."
-         " The registered value is assigned afresh on every path of the iteration; a relative spelling is registered only for the reference that owns it (decided order-independently before the loop) and next to the absolute one; the final fill-in over inserted values is a recorded known finding.",
+         " The registered value is assigned afresh on every path of the iteration; a relative spelling is registered only for the reference that owns it (decided order-independently before the loop) and next to the absolute one; the final fill-in over inserted values is a recorded known finding."
+         " The table that decides who owns a relative spelling is order-independent in both of its forms (min with a key of the reference alone; incremental with a guard decided on its truth table).",
     technique="substitution-site lint with pattern-shape analysis (SUB), local def-use of replacement values, CFG edge-dominance, "
               "non-local effect analysis (STATE), reaching definitions",
     design="3/C10")
@@ -154,7 +159,8 @@ CLAIMED["C15"] = dict(
          "is stored into in the same loop over it. Holds for every hash seed / directory order; equality of full dumps across "
          "processes is not run, networkx-internal ordering is an assumption."
          " No function of the load-path modules stores a mutable object into class-level state; de-duplication of variable files keeps the last occurrence."
-         " A loop that re-keys a mapping under a normalised key iterates in sorted order.",
+         " A loop that re-keys a mapping under a normalised key iterates in sorted order."
+         " No function of the load path writes into a module-level list/dict/set.",
     technique="intra-procedural order-taint (set-typedness inference + sink classification) with a frozen exemption table",
     design="3/C15")
 
@@ -168,7 +174,8 @@ CLAIMED["C04"] = dict(
          "character), the resolver cache is transparent (C08 analysis re-used), and typed-option "
          "table agreement (schema admits bool/int/float => a string-safe converter exists). Covers every combination "
          "of layers; value equality with an independent resolver is not decided."
-         " The flattening used by non-primitive loads lets the same scope win as the live resolver for every definition pattern; its early substitution inside the global/stage layers is a recorded known finding (three constructs).",
+         " The flattening used by non-primitive loads lets the same scope win as the live resolver for every definition pattern; its early substitution inside the global/stage layers is a recorded known finding (three constructs)."
+         " The requested platform is passed on at every call between platform-parametrised methods of FlowIRConcrete.",
     technique="statement-order and CFG analysis of the resolver, handler swallow-path analysis, schema/converter "
               "table agreement",
     design="3/C04")
@@ -180,7 +187,8 @@ CLAIMED["C09"] = dict(
          "containing the special folders and mapped application dependencies, manifest keys split on the path separator "
          "(os.pathsep only on environment values), and no stage index for absolute paths. Round-trip and idempotence "
          "equalities over all strings are not decided."
-         " Reserved-folder collections are decided by a must-inclusion analysis on every path (INCL engine) and the class-level reserved collections are never mutated in place (alias-aware).",
+         " Reserved-folder collections are decided by a must-inclusion analysis on every path (INCL engine) and the class-level reserved collections are never mutated in place (alias-aware)."
+         " Regex alternations over the reference methods try the longer of two methods sharing a prefix first.",
     technique="format/split constant agreement, finite truth tables of classifier predicates (sibling cross-check), "
               "CFG edge-dominance",
     design="3/C09")
@@ -235,7 +243,8 @@ CLAIMED["C07"] = dict(
          "scope win as the live resolver get_component_variables for all 16+4 scope-membership patterns of a name "
          "(abstract interpretation of the dictionary layering). Equality of resolved configurations after a reload is not decided."
          " The store function writes and publishes on every normal return (no silent early return)."
-         " Folder discovery on reload follows the symbolic links that deployment creates.",
+         " Folder discovery on reload follows the symbolic links that deployment creates."
+         " No function of the load path writes into a module-level memo (the loader parses the stored file on every load); default injection tests the key it sets.",
     technique="writer/schema key-set agreement, CFG edge-dominance and statement-order (must-pass-through) checks, "
               "abstract interpretation of dict layering over a finite membership domain (sibling agreement)",
     design="3/C07")
@@ -250,7 +259,8 @@ CLAIMED["C11"] = dict(
          "reference), defaults are admitted by the closed schema, and every component is resolved inside a "
          "recording catch-all; the undefined-variable detector is strict (C04.R5/R8 analysis re-used). Implicit exceptions outside try blocks and front-end work before this loader are outside "
          "the model; acceptance => usability for all documents is not decided."
-         " The merge hands every key of the component document to the closed-schema check (novel keys are copied whatever their value).",
+         " The merge hands every key of the component document to the closed-schema check (novel keys are copied whatever their value)."
+         " The class-level tables that decide whether a name is a folder or a component are never mutated in place (shared with C09).",
     technique="explicit-raise escape analysis over a name-resolved call graph, call-graph reachability of detectors, "
               "table agreement, CFG must-pass-through",
     design="3/C11")
@@ -266,7 +276,8 @@ CLAIMED["C06"] = dict(
          "value is falsy); no mapping is indexed with a key on the failing side of its own membership test (one genuine defect repaired). That the "
          "producer/consumer relation equals the flattened reference relation for all namespaces and that the result is "
          "accepted by the FlowIR validator need execution and are not decided."
-         " The cycle detector's view of the open scopes is maintained symmetrically by enter()/exit(); match objects are tested before use; no while loop of the compiler has a cycle on which nothing changes; split() accepts full prefixes only.",
+         " The cycle detector's view of the open scopes is maintained symmetrically by enter()/exit(); match objects are tested before use; no while loop of the compiler has a cycle on which nothing changes; split() accepts full prefixes only."
+         " A typed parameter value is returned only for a whole-string reference; the first element of a possibly empty schema list is read only behind an emptiness test.",
     technique="explicit-raise escape analysis over a name-resolved call graph, error-collection lint, SUB, naming-loop "
               "uniqueness check",
     design="3/C06")
